@@ -1073,6 +1073,8 @@ func checkC18(ck *Check) {
 	}
 	ck.terminateChunking("C18.R4")
 	ck.exitAfterDisposition("C18.R6")
+	// R5 (continued): no cool-down lock for capacity that did not arrive — the arming discipline of C02.R2
+	ck.armingRule("C18.R5")
 	// R5 chain upwards
 	for _, ci := range callsTo(a.AwsIncrease, a.AwsOneShot) {
 		ck.returnsCallUnchanged("C18.R5", a.AwsIncrease, ci.(*ssa.Call), 0)
